@@ -159,8 +159,17 @@ def contexts_holding(item):
 def entries():
     E = []
 
-    def add(doc, exc, *thunks):
-        E.append({"doc": doc, "exc": tuple(exc), "thunks": list(thunks)})
+    def add(doc, exc, *thunks, **kw):
+        E.append({"doc": doc, "exc": tuple(exc), "thunks": list(thunks), "place": kw.get("place")})
+
+    def add_placed(doc, exc, placed):
+        """*placed*: [(thunk, place)] - one entry per place class (the place is a part of the cause: a
+        fault that depends on where the invalid item stands is told from one that does not)."""
+        by = {}
+        for thunk, place in placed:
+            by.setdefault(place, []).append(thunk)
+        for place in sorted(by):
+            add("%s [%s]" % (doc, place), exc, *by[place], place=place)
 
     # ---- lena.math
     bad_intervals = [(), (1,), (0, 1, 2), [0, 1, 2, 3], "abc"]
@@ -185,6 +194,35 @@ def entries():
         lambda: _consume(lena.math.Mean(sum_seq=lena.math.DSum()).compute()))
     add("math/elements.py:330 VarianceMeanCount.compute with nothing filled", ["LenaZeroDivisionError"],
         lambda: _consume(lena.math.VarianceMeanCount().compute()))
+
+    # ---- the placement axis (mc/ref/c20_places.py): the invalid item at EVERY place of a container
+    # argument whose items the docstring speaks about - which argument, which index, which depth
+    from mc.ref import c20_places
+    # isclose: "a and b must be either numbers or lists/tuples of same dimensions (may be nested) ...
+    # Otherwise LenaTypeError is raised. For containers, isclose is called elementwise."
+    not_numbers = ["1", None, {}, _Plain(), b"x"]
+    add_placed("math/utils.py:71 isclose: an item of (nested) containers that is not a number", ["LenaTypeError"],
+               [(lambda a=a, b=b: lena.math.isclose(a, b), place)
+                for item in not_numbers for a, b, place in c20_places.pairs_with_item(item)])
+    # "if some subarray of edges contains not strictly increasing values"
+    bad_edges = c20_places.edges_with_bad_step()
+    add_placed("structures/hist_functions.py:96 check_edges_increasing: one step that does not increase",
+               ["LenaValueError"],
+               [(lambda e=e: lena.structures.check_edges_increasing(e), place.rsplit("/", 2)[0])
+                for e, place in bad_edges])
+    add_placed("structures/histogram.py:101 histogram: edges with one step that does not increase",
+               ["LenaValueError"],
+               [(lambda e=e: histogram(e), place.rsplit("/", 2)[0]) for e, place in bad_edges])
+    # Filter: "selector can be a container. In this case its items are converted to selectors" /
+    # "If the conversion could not be done, LenaTypeError is raised"
+    not_selectors = [5, None, 2.5, {"a": 1}]
+    placed_selectors = [(sel, place) for item in not_selectors
+                        for sel, place in c20_places.sequences_with_item(item, abs)]
+    add_placed("flow/filter.py:13 Filter: an inconvertible item at every place of a container", ["LenaTypeError"],
+               [(lambda s=s: lena.flow.Filter(s), place) for s, place in placed_selectors])
+    add_placed("structures/split_into_bins.py:173 MapBins: an inconvertible item at every place of select_bins",
+               ["LenaTypeError"],
+               [(lambda s=s: lena.structures.MapBins(abs, select_bins=s), place) for s, place in placed_selectors])
 
     # ---- lena.flow
     add("flow/functions.py:66 seq_map one_result with not exactly one result", ["LenaValueError"],
